@@ -19,7 +19,8 @@ THEOREMS = ["outside_the_engine_the_glue_only_waits", "delivery_needs_engine_dat
             "query_requests_write_only_for_handshake", "suppressed_write_poll_is_restored", "idle_client_requests_write",
             "pending_only_advances_the_handshake", "send_only_writes", "receive_only_reads", "unlimited_receive_never_nothing",
             "send_io_inside_engine", "receive_io_inside_engine", "driver_paths_io_inside_engine",
-            "receive_now_keeps_the_interest", "send_some_keeps_the_interest", "pending_keeps_the_interest", "known_interest_is_polled", "tls_send_complete", "read_steps_suffice_refuted", "driver_receive_drains_the_engine"]
+            "receive_now_keeps_the_interest", "send_some_keeps_the_interest", "pending_keeps_the_interest", "known_interest_is_polled", "tls_send_complete", "read_steps_suffice_refuted", "driver_receive_drains_the_engine",
+            "step_budget_is_measured_against_the_operation_deadline"]
 
 CH, SF, CF, ST, OVH, CLOSE_NOTIFY = 120, 900, 60, 260, 22, 24
 E_SSL, E_WANT_READ, E_WANT_WRITE, E_SYSCALL, E_ZERO = 1, 2, 3, 5, 6
@@ -251,7 +252,8 @@ def kernel(c, kind, a, tr, rnd):
     if kind in (3, 4) and a[0] in worlds:
         W = worlds[a[0]]
     if kind == 1:
-        return [rnd.choice([0, 0, 1000000, 3000000])]       # the clock moves: time budgets of limited operations are consumed
+        # the clock moves: time budgets of limited operations are consumed — also by fractions of a millisecond (F15)
+        return [rnd.choice([0, 0, 20000, 400000, 1000000, 3000000])]
     if kind == 2:
         timeout = a[0]
         fds = [(a[i], a[i + 1]) for i in range(3, len(a) - 1, 2)]
@@ -292,7 +294,7 @@ def kernel(c, kind, a, tr, rnd):
             if timeout >= 0:
                 return [0, 0, timeout * 1000000] + rev
             return None
-        dt = 0 if timeout == 0 else rnd.choice([0, 0, 2000000])
+        dt = 0 if timeout == 0 else rnd.choice([0, 0, 300000, 2000000])
         if timeout > 0:
             dt = min(dt, timeout * 1000000)
         return [n, 0, dt] + rev
@@ -457,6 +459,44 @@ def stalled(c, tr):
 
 
 STEPS_KEY = "steps-exhausted:zero-timeout:SocketTlsImpl.Read/Write/DriverPending"
+BUDGET_KEY = "budget-truncated-per-step:SocketTlsImpl.UnderDeadline/BioWrite"
+
+
+def budget_early(c, tr):
+    """C07's lower bound for TLS operations: a Send/Receive with T > 0 that returns 'nothing' (Receive: no data, Send: fewer bytes
+    than asked) must have let T pass, to the millisecond. Returns (kind, text): kind 'f15' when the shortfall is at most one
+    millisecond per internal step (the budget is stored back truncated to milliseconds after every step), 'viol' when it is more."""
+    p = plan_of(c)
+    if not tr or p is None or p["level"] not in ("basic", "buffered", "dual") or p["fatal"]:
+        return None
+    from c14 import top_ops, segments
+    rets = segments(c, tr)
+    tops = top_ops(c)
+    now, start, reads, seg_i = 0, 0, 0, 0
+    for i, (k, a) in enumerate(tr):
+        if k == 1:
+            now = max(now, a[0]); reads += 1
+        elif k == 2:
+            now += a[2]
+        elif k == 40 and a[3] in (E_SSL, E_SYSCALL, E_ZERO):
+            return None
+        elif k == 20 and seg_i < len(rets) and i == rets[seg_i]:
+            opc = a[0] % 1000
+            top = tops[seg_i][1] if seg_i < len(tops) else []
+            T = top[2] if opc in (23, 24) and len(top) > 2 else 0
+            nothing = (opc == 24 and a[1] == 1 and a[2] < 0) or (opc == 23 and a[1] == 1 and a[2] < top[1])
+            if T > 0 and nothing:
+                elapsed = now - start
+                short = T * 1000000 - 1000000 - elapsed
+                if short >= 0 and elapsed < T * 1000000 - 1000000:
+                    steps = reads // 2 + 1
+                    text = ("operation %d with time-out %d ms returned 'nothing' after %.3f ms (%d internal steps that each store the remaining budget back "
+                            "truncated to whole milliseconds)" % (opc, T, elapsed / 1e6, steps))
+                    return ("f15" if short <= steps * 1000000 else "viol", text)
+            seg_i += 1
+            start, reads = now, 0
+    return None
+
 
 
 def steps_exhausted_zero_timeout(tr):
@@ -487,6 +527,9 @@ def finding_key(c, ti, why):
         return PENDING_KEY
     if steps_exhausted_zero_timeout(ti):
         return STEPS_KEY
+    be = budget_early(c, ti)
+    if be and be[0] == "f15":
+        return BUDGET_KEY
     return None
 
 
@@ -499,6 +542,9 @@ def monitor(c, tr):
     if steps_exhausted_zero_timeout(tr):
         return ("(F13) ten engine calls in a row ended in WANT_READ/WANT_WRITE although each zero-time-out wait in between succeeded (input trickling in between two "
                 "zero-time-out looks): handshakeStepsMax exhausted, assert(i < handshakeStepsMax) aborts")
+    be = budget_early(c, tr)
+    if be:
+        return ("(F15) " if be[0] == "f15" else "") + be[1] + ": earlier than C07 allows (T to the millisecond)"
     if finding_key(c, tr, "") == PENDING_KEY:
         return "(F8) application data that arrives together with the end of the handshake is read and dropped by DriverPending(), std::logic_error escapes from Step/Run"
     for k, a in tr:
@@ -677,7 +723,7 @@ def real_openssl_stage(rep, tier, seed):
         runs = []
         for name, argsets in (("f8_pending_data_demo", [["0", "2"], ["1", "1"], ["1", "2"], ["2", "2"]]), ("f9_idle_client_demo", [[]]),
                               ("f10_large_send_demo", [["147457"], ["1000000"]]), ("f12_async_large_buffer_demo", [["100000", "60"]]),
-                              ("f14_record_larger_than_buffer_demo", [["5000", "512"], ["16000", "2048"]]), ("f16_error_queue_demo", [[]])):
+                              ("f14_record_larger_than_buffer_demo", [["5000", "512"], ["16000", "2048"]]), ("f16_error_queue_demo", [[]]), ("f15_budget_demo", [["200"], ["50"]])):
             exe = os.path.join(libdir, name)
             src = os.path.join(VERIF, "corpus", "real_openssl", name + ".cpp")
             if not os.path.exists(exe) or os.path.getmtime(exe) < os.path.getmtime(src):
